@@ -88,6 +88,11 @@ pub fn prelude(kind: u8, request: bool) -> Vec<u8> {
             v.extend(h2::ping());
             v
         }
+        // the sender's own SETTINGS_HEADER_TABLE_SIZE (id 1) limits the table its PEER may use for encoding towards it; the
+        // table for the sender's own header blocks keeps the default 4096 bytes unless a size update in the block says so
+        6 => h2::settings(&[(1, 0)]),
+        7 => h2::settings(&[(1, 40), (3, 100)]),
+        8 => h2::settings(&[(1, 4096), (1, 0)]),
         5 => {
             // a maximum-size (16384-byte) extension frame before the header block
             let mut v = h2::settings(&[(4, 1048576)]);
@@ -323,6 +328,19 @@ pub fn cases(thorough: bool) -> Vec<(Case, &'static str)> {
         let mut r2 = base_response(200, vec![]);
         r2.headers = hs;
         v.push((Case { reps: vec![Rep::Indexed], ..plain(&r2) }, "dynamic-table-eviction"));
+    }
+    // (1c) the sender announces a small header table for ITSELF while its own block inserts entries and refers to them
+    for m in msgs.iter().take(8) {
+        for pre in [6u8, 7, 8] {
+            for reps in [vec![Rep::Indexed], vec![Rep::LitIdxNewName, Rep::Indexed], vec![Rep::LitIdxIndexedName]] {
+                let mut m2 = m.clone();
+                // the same pair twice: the second occurrence is an indexed reference to the entry the first one inserted
+                m2.headers.push((s("x-again"), s("same-value")));
+                m2.headers.push((s("x-again"), s("same-value")));
+                v.push((Case { prelude: pre, reps: reps.clone(), ..plain(&m2) }, "own-table-size-setting"));
+                v.push((Case { prelude: pre, reps, tail: 1, ..plain(&m2) }, "own-table-size-setting"));
+            }
+        }
     }
     // (1b) more than one header block on the wire: the connection start is the first one
     for m in msgs.iter().take(8) {
